@@ -178,3 +178,46 @@ def run_layer_lists(prog):
                  "the spanned layer list is built with %s but the plain one with %s: layer names/indexes and layer bodies can be "
                  "paired up in different orders" % (pipes["spanned"], pipes["plain"]))
     return res
+
+
+RAW_OK = {
+    CFG + "parse_action_list": "the head of a list action is a keyword that selects the parser, not a value; everything after it goes through atom(vars)/list(vars)",
+}
+
+
+def run_rawmatch(prog):
+    """R-RAWMATCH (C16, defvar clause): action parsers look at expressions only through atom(vars) / list(vars).
+
+    `SExpr::atom(vars)` and `SExpr::list(vars)` are where `$name` is replaced by the variable's value. An action
+    parser that matches on the expression itself (`match expr { SExpr::Atom(a) => .. }`) sees the literal text
+    `$name`: the configuration with the variable is then accepted or behaves differently from the one with the
+    value written out. Rule: among the functions reachable from parse_action, only the s-expression module itself
+    and the reviewed functions in RAW_OK switch on the discriminant of an SExpr."""
+    from kq.analysis import discr_switches
+    from kq.report import norm_key
+    res = RuleResult("R-RAWMATCH", "action parsers never match on a raw SExpr (which would bypass variable substitution)", floor=100)
+    reach = prog.reachable_from([CFG + "parse_action"])
+    allowed = {norm_key(k): v for k, v in RAW_OK.items()}
+    seen_ok = set()
+    for n in sorted(reach):
+        for f in prog.by_norm.get(n, []):
+            if f.crate != "kanata_parser" or f.derive:
+                continue
+            res.fn(f)
+            sws = discr_switches(prog, f, CFG + "sexpr::SExpr")
+            k = norm_key(f.norm)
+            in_sexpr = f.norm.startswith(CFG + "sexpr::")
+            ok = not sws or in_sexpr or k in allowed
+            if sws and k in allowed:
+                seen_ok.add(k)
+            res.inst("raw/" + k, where=f.loc, raw_matches=len(sws), ok=ok)
+            res.oblige(ok)
+            if not ok:
+                res.viol("raw/" + k, "%s:%s" % (f.file, f.line_of(sws[0].bb)),
+                         "%s is reachable from parse_action and matches on an SExpr directly (line %s) instead of going through "
+                         "atom(vars) / list(vars): a `$variable` in that position is not substituted, so naming the value with defvar "
+                         "changes what the configuration means" % (f.norm.split("::")[-1], f.line_of(sws[0].bb)))
+    for k in allowed:
+        if k not in seen_ok:
+            res.notes.append("reviewed raw match no longer present: %s" % k)
+    return res
